@@ -305,8 +305,11 @@ class Generator:
                 # a member that sanifies to another hint plus a type-variable table (a parametrised user generic)
                 s_ = ASane(red[0])
                 s_.typearg_to_hint = dict(red[1])
+                s_.passed_parent = kwargs.get('hint_parent_sane')
                 return s_
-            return ASane(h)
+            s_ = ASane(h)
+            s_.passed_parent = kwargs.get('hint_parent_sane')      # under which parent metadata the child was sanified
+            return s_
 
         def acquire(env, args, kwargs):
             c = arg(args, kwargs, 0, 'cls')
